@@ -159,7 +159,12 @@ var errnos = map[string]syscall.Errno{
 
 // match returns the rule that fires for this primitive call, if any.
 func match(prim, path string) *Rule {
-	for _, r := range rules {
+	for i, r := range rules {
+		if i > 0 && rules[0].Fired == 0 {
+			// later rules are about what the program does after the first
+			// failure: they lie dormant (and count nothing) until it has happened
+			break
+		}
 		if r.Prim != prim {
 			continue
 		}
